@@ -349,3 +349,10 @@ def predicate(op, il, mres, tag):
 
 def matches_known(k, op, il, mres, tag):
     return False
+
+
+# --- DAEMON ops (server/daemon New / Serve / Close, internal/activation, zhttp recovery against the REAL daemon on loopback listeners):
+# a further correspondence under the pseudo-property C04DMN, checklib/models/daemon.py; theorems in lean/Relic/Props/C04_Daemon.lean
+import sys as _sys_dmn, os as _os_dmn
+_sys_dmn.path.insert(0, _os_dmn.path.join(_os_dmn.path.dirname(_os_dmn.path.dirname(_os_dmn.path.abspath(__file__))), "models"))
+import daemon as _dmn; _dmn.wrap(globals(), "C04")
